@@ -28,14 +28,15 @@ CHECKS = {
    technique="Coq proof (induction on lists, lia on nested ifs) + py2coq bridge + vm_compute correspondence",
    note=COMMON_NOTE + "bytearray element stores assumed in range(256) (true for byte inputs; an out-of-range store would show as an exception in the correspondence).", ref="8 (C08)"),
  'C01': dict(
-   text="Coq theorem over ALL environments, classes and objects (Properties/C01.v, stage A = specifications without chunked sections): wire_ok E cls (static wire-unambiguity: read-to-the-end "
-        "items only where nothing follows in the whole message, optionals last, dummy only alone, implied-length arrays of fixed-size or progress-making closed elements, fresh names, "
-        "length fields referenced by exactly their field) and valid_obj (in range, cp1252-encodable, no U+00FF in padded / '~' in encoded strings, no empty optional tail, exact shape) imply: "
-        "serialize succeeds and deserialize of the bytes returns the same object field by field (nested structs, arrays, optionals, case data, unrecognised ordinals), consumes exactly the bytes, "
-        "byte_size = count; a framed generalisation for nested classes; every side condition has a necessity witness. Chunked sections (stage B) are not covered by the theorem yet (partial). "
-        "Tie: generated code round trips on corpus + random trees; the theorem's domain is decided in Coq per (spec, object) pair and must be non-empty; model and code must agree on every case.",
-   technique="Coq proof (frame invariant over the pure wire format, induction on instructions and fuel) + differential round-trip correspondence with domain membership decided in Coq",
-   note=GEN_NOTE + "Partial: the theorem covers specifications without <chunked>/<break>/delimited arrays; the rest is covered by correspondence only.", ref="8 (C01)"),
+   text="Coq theorems over ALL environments, classes and objects (Properties/C01.v stage A, Properties/C01B.v stage B incl. chunked sections, breaks, delimited arrays): wire_okB E cls (static "
+        "wire-unambiguity computed with the static mode and the continuation End/Break/Other: read-to-the-end items only before a break or the end, optionals last in their segment, dummy alone, "
+        "implied-length arrays of fixed-size / progress-making elements, no separating-delimiter array without length before a break, fresh names, length fields referenced by exactly their field) and "
+        "valid_objB (in range, cp1252-encodable, no U+00FF where sanitised or padded, no '~' in encoded strings, no 0xFF byte/blob values inside or ahead of chunked sections, no empty optional tail or "
+        "empty delimited element, exact shape) imply: serialize succeeds and deserialize of the bytes returns the same object field by field, consumes exactly the bytes, byte_size = count; framed "
+        "generalisations for nested classes in either mode; stage A is included in stage B; every exclusion has a necessity witness (does not round-trip). Tie: generated code round trips on corpus + "
+        "random trees; the theorem's domain is decided in Coq per (spec, object) pair, must be non-empty, and model and code must agree on every case inside or outside it.",
+   technique="Coq proof (reader invariant valid in both modes with stale-but-valid break cache, frame over the pure wire format, induction on instructions and fuel) + differential round-trip correspondence with domain membership decided in Coq",
+   note=GEN_NOTE + "Still refused by wire_okB although they round-trip: non-chunked arrays/structs ahead of a chunked section (the 'clean' flag is conservative), a dummy that is not the sole instruction, an optional length field.", ref="8 (C01)"),
  'C02': dict(
    text="Coq theorems over ALL elaborated specs and ALL objects (Properties/C02.v): the statement-level semantics of generated serializers equals a pure declarative wire-format "
         "function enc (ser = Ok iff enc = Some, same bytes, mode kept); document order = concatenation of per-instruction outputs; arrays in closed form (trailing / separating "
